@@ -312,6 +312,11 @@ fn dot_and_norms_f32_neon_entry(a: &[f32], b: &[f32]) -> (f32, f32, f32) {
 }
 
 fn detect_best_f32_kernels() -> ResolvedF32Kernels {
+    #[cfg(feature = "verif-hooks")]
+    if let Some(forced) = verif::forced_from_env() {
+        return forced;
+    }
+
     #[cfg(target_arch = "aarch64")]
     if std::arch::is_aarch64_feature_detected!("neon") {
         return ResolvedF32Kernels {
@@ -355,6 +360,87 @@ fn detect_best_f32_kernels() -> ResolvedF32Kernels {
         sum_squares: sum_squares_f32_scalar_entry,
         l2_distance_sq: l2_distance_sq_f32_scalar_entry,
         dot_and_norms: dot_and_norms_f32_scalar_entry,
+    }
+}
+
+/// Verification hooks (feature `verif-hooks`, off by default): name-addressable kernel
+/// families and an environment override (`KYRODB_VERIF_FORCE_KERNEL`) for the runtime dispatch,
+/// so that every kernel can be exercised on a host whose CPU would always pick the widest one.
+#[cfg(feature = "verif-hooks")]
+pub mod verif {
+    use super::*;
+
+    pub type KernelTable = (
+        fn(&[f32], &[f32]) -> f32,
+        fn(&[f32]) -> f32,
+        fn(&[f32], &[f32]) -> f32,
+        fn(&[f32], &[f32]) -> (f32, f32, f32),
+    );
+
+    /// Kernel families usable on this CPU, narrowest first.
+    pub fn available() -> Vec<&'static str> {
+        let mut out = vec!["scalar"];
+        #[cfg(target_arch = "x86_64")]
+        {
+            if std::is_x86_feature_detected!("sse2") {
+                out.push("sse2");
+            }
+            if std::is_x86_feature_detected!("avx2") && std::is_x86_feature_detected!("fma") {
+                out.push("avx2");
+            }
+            if std::is_x86_feature_detected!("avx512f") && std::is_x86_feature_detected!("fma") {
+                out.push("avx512");
+            }
+        }
+        out
+    }
+
+    /// (dot, sum_squares, l2_distance_sq, dot_and_norms) of one family, if usable on this CPU.
+    pub fn kernel_table(name: &str) -> Option<KernelTable> {
+        if !available().contains(&name) {
+            return None;
+        }
+        match name {
+            "scalar" => Some((
+                dot_f32_scalar_entry,
+                sum_squares_f32_scalar_entry,
+                l2_distance_sq_f32_scalar_entry,
+                dot_and_norms_f32_scalar_entry,
+            )),
+            #[cfg(target_arch = "x86_64")]
+            "sse2" => Some((
+                dot_f32_sse2_entry,
+                sum_squares_f32_sse2_entry,
+                l2_distance_sq_f32_sse2_entry,
+                dot_and_norms_f32_sse2_entry,
+            )),
+            #[cfg(target_arch = "x86_64")]
+            "avx2" => Some((
+                dot_f32_avx2_entry,
+                sum_squares_f32_avx2_entry,
+                l2_distance_sq_f32_avx2_entry,
+                dot_and_norms_f32_avx2_entry,
+            )),
+            #[cfg(target_arch = "x86_64")]
+            "avx512" => Some((
+                dot_f32_avx512_entry,
+                sum_squares_f32_avx512_entry,
+                l2_distance_sq_f32_avx512_entry,
+                dot_and_norms_f32_avx512_entry,
+            )),
+            _ => None,
+        }
+    }
+
+    pub(crate) fn forced_from_env() -> Option<ResolvedF32Kernels> {
+        let name = std::env::var("KYRODB_VERIF_FORCE_KERNEL").ok()?;
+        let (dot, sum_squares, l2_distance_sq, dot_and_norms) = kernel_table(name.trim())?;
+        Some(ResolvedF32Kernels {
+            dot,
+            sum_squares,
+            l2_distance_sq,
+            dot_and_norms,
+        })
     }
 }
 
